@@ -1347,6 +1347,13 @@ func (d *Data) NewVoxels(geom dvid.Geometry, img interface{}) (*Voxels, error) {
 				requestSize, server.MaxDataRequest)
 		}
 		voxels.data = make([]uint8, requestSize)
+		// Voxels that no stored block covers must read as the background, as they do in
+		// BackgroundBlock() and GetBlocks().
+		if d.Background != 0 && bytesPerVoxel == 1 {
+			for i := range voxels.data {
+				voxels.data[i] = d.Background
+			}
+		}
 	} else {
 		switch t := img.(type) {
 		case image.Image:
